@@ -16,12 +16,21 @@ pub enum In {
     N,
     P,
 }
-pub const CATS: [In; 4] = [In::P, In::N, In::E(1), In::E(2)];
+/// error code 0 stands for the crate's own `Error::FromNone`, any other code k for `Error::Other(k)`
+pub const CATS: [In; 5] = [In::P, In::N, In::E(1), In::E(2), In::E(0)];
+pub fn err_of(k: u8) -> Error<E> {
+    if k == 0 {
+        Error::FromNone
+    } else {
+        Error::Other(k)
+    }
+}
 const PRIMES: [f32; 8] = [2.0, 3.0, 5.0, 7.0, 11.0, 13.0, 17.0, 19.0];
 
 fn cat_name(c: &[In]) -> String {
     c.iter()
         .map(|x| match x {
+            In::E(0) => "FromNone".to_string(),
             In::E(k) => format!("E{}", k),
             In::N => "N".to_string(),
             In::P => "P".to_string(),
@@ -32,7 +41,7 @@ fn cat_name(c: &[In]) -> String {
 
 fn mk<T: Clone>(c: In, t: i64, v: T) -> Output<T, E> {
     match c {
-        In::E(k) => Err(Error::Other(k)),
+        In::E(k) => Err(err_of(k)),
         In::N => Ok(None),
         In::P => Ok(Some(Datum::new(Time(t), v))),
     }
@@ -48,7 +57,7 @@ impl Exp {
         Exp { alts: vec![(o, vec![o.time])] }
     }
     fn err(k: u8) -> Exp {
-        Exp::one(Obs::err(&Error::Other(k)))
+        Exp::one(Obs::err(&err_of(k)))
     }
     fn none() -> Exp {
         Exp::one(Obs::NONE)
@@ -273,11 +282,13 @@ fn times_from_ranks(cats: &[In], ranks: &[usize], base: i64, step: i64) -> Vec<i
 
 pub fn run_nary(eng: &mut Eng, max_weak: usize, max_n: usize, time_only: bool) {
     for n in 1..=max_n {
-        let total = ipow(4, n);
+        // five input categories (the third error value is Error::FromNone) up to arity 5, four beyond
+        let ncat: u64 = if n <= 5 { 5 } else { 4 };
+        let total = ipow(ncat, n);
         let mut cats = vec![In::N; n];
         let mut digits = vec![0usize; n];
         for idx in 0..total {
-            decode(idx, 4, &mut digits);
+            decode(idx, ncat, &mut digits);
             for i in 0..n {
                 cats[i] = CATS[digits[i]];
             }
@@ -426,13 +437,13 @@ pub fn run_fixed(eng: &mut Eng, time_only: bool) {
         N,
         E(u8),
     }
-    let bs = [B::T, B::F, B::N, B::E(1), B::E(2)];
+    let bs = [B::T, B::F, B::N, B::E(1), B::E(2), B::E(0)];
     let mkb = |b: B, t: i64| -> Output<bool, E> {
         match b {
             B::T => Ok(Some(Datum::new(Time(t), true))),
             B::F => Ok(Some(Datum::new(Time(t), false))),
             B::N => Ok(None),
-            B::E(k) => Err(Error::Other(k)),
+            B::E(k) => Err(err_of(k)),
         }
     };
     let val = |b: B| match b {
@@ -522,8 +533,8 @@ pub fn run_fixed(eng: &mut Eng, time_only: bool) {
         }
     }
     // ---- if / if-else: condition {T,F,N,E1} x input(s) {P,N,E2,E3}
-    let conds = [B::T, B::F, B::N, B::E(1)];
-    let ins = [In::P, In::N, In::E(2), In::E(3)];
+    let conds = [B::T, B::F, B::N, B::E(1), B::E(0)];
+    let ins = [In::P, In::N, In::E(2), In::E(3), In::E(0)];
     for &c in &conds {
         for &i0 in &ins {
             for &i1 in &ins {
@@ -560,7 +571,7 @@ pub fn run_fixed(eng: &mut Eng, time_only: bool) {
         }
     }
     // ---- expirer, none-to-error, none-to-value, constant getter, none getter
-    let tgs: [TimeOutput<E>; 3] = [Ok(Time(1000)), Ok(Time(-1000)), Err(E3)];
+    let tgs: [TimeOutput<E>; 4] = [Ok(Time(1000)), Ok(Time(-1000)), Err(E3), Err(Error::FromNone)];
     for &c in &CATS {
         for tg in &tgs {
             for age_rel in [-1i64, 0, 1] {
@@ -581,9 +592,9 @@ pub fn run_fixed(eng: &mut Eng, time_only: bool) {
                     let t = rc(ScrTime::new(*tg));
                     let exp = match (c, tg) {
                         (In::E(k), _) => Exp::err(k),
-                        (In::N, Err(_)) => Exp::none().or(Exp::one(Obs::err(&E3))),
+                        (In::N, Err(te)) => Exp::none().or(Exp::one(Obs::err(te))),
                         (In::N, _) => Exp::none(),
-                        (In::P, Err(_)) => Exp::one(Obs::err(&E3)),
+                        (In::P, Err(te)) => Exp::one(Obs::err(te)),
                         (In::P, Ok(_)) => {
                             if age_rel > 0 {
                                 Exp::none()
@@ -605,12 +616,12 @@ pub fn run_fixed(eng: &mut Eng, time_only: bool) {
                             (In::E(k), _) => Exp::err(k),
                             (In::P, _) => Exp::some(21.0f32.bits(), vec![tdata]),
                             (In::N, Ok(t)) => Exp::some(55.0f32.bits(), vec![t.0]),
-                            (In::N, Err(_)) => Exp::one(Obs::err(&E3)),
+                            (In::N, Err(te)) => Exp::one(Obs::err(te)),
                         };
                         j.check("none-to-value", &case, guard(|| three(&NoneToValue::new(rf(&a), rf(&t), 55.0f32))), &exp_ntv, 2);
                         let exp_const = match tg {
                             Ok(t) => Exp::some(8.5f32.bits(), vec![t.0]),
-                            Err(_) => Exp::one(Obs::err(&E3)),
+                            Err(te) => Exp::one(Obs::err(te)),
                         };
                         j.check("constant-getter", &case, guard(|| three(&ConstantGetter::new(rf(&t), 8.5f32))), &exp_const, 1);
                         let ng = guard(|| {
